@@ -42,7 +42,15 @@ def main():
         sh(f"git -C /repo diff {h} {h}~1 > /var/tmp/revert.patch")
         rc, out = sh("git apply --3way /var/tmp/revert.patch 2>&1", cwd=REPO)
         st = sh("git status --short", cwd=REPO)[1]
-        if rc != 0 or "conflict" in out.lower() or any(l.startswith(("UU", "AA", "U ", " U")) for l in st.splitlines()):
+        failed = rc != 0 or "conflict" in out.lower() or any(l.startswith(("UU", "AA", "U ", " U")) for l in st.splitlines())
+        manual = f"/verif/seeded/reverts-manual/{h}.diff"
+        if failed and os.path.exists(manual):
+            # a later repair touches the same lines: hand-written re-introduction of the defect on HEAD
+            sh("git reset -q --hard && git clean -fdq", cwd=REPO)
+            rc, out = sh(f"git apply {manual} 2>&1", cwd=REPO)
+            failed = rc != 0
+            row["manual_reintroduction"] = True
+        if failed:
             row["reverse_applies"] = False
             row["note"] = "a later fix touches the same lines; not evaluated"
             table[h] = row
